@@ -93,7 +93,7 @@ def close(v, q, mag=None, rel=1e-9, abs_floor=0.0):
     q = frac(q)
     try:
         fv = frac(v)
-    except (ValueError, TypeError):
+    except (ValueError, TypeError, OverflowError):      # NaN / infinity / not a number at all: never a match
         return False
     m = abs(q)
     if mag is not None:
